@@ -23,7 +23,9 @@ LEVEL_NOTE = ("syntax is checked against the declared minimum Python only as far
               "(np.asarray(x).attr is checked against numpy.ndarray); other instance attributes are not typed, except that every "
               "`with` item must enter an object KNOWN to have the context-manager protocol (documented context-manager function, "
               "installed library class or package class with __enter__/__exit__) - an item the translator cannot type is a broken "
-              "obligation followed by an instrumented API walk (harness/with_probe.py). "
+              "obligation followed by an instrumented API walk (harness/with_probe.py); numpy type names written as string literals "
+              "(dtype='...', .astype('...'), np.dtype('...')) are checked against the installed numpy.dtype, other library names inside "
+              "strings are not seen. "
               "trusted: completeness of the AST walker (dynamic attribute access via computed strings is not seen), "
               "the hand-written list of names newer than the declared minimum versions and the hand-written list of documented "
               "context-manager functions (open, tarfile.open, ...); only the INSTALLED "
@@ -247,6 +249,26 @@ def unresolved(run):
                         "why": "is bound only inside an `if ...__available__:` block (it does not exist without the optional "
                                "dependency) but is used by `%s`, which runs without it: NameError/AttributeError at call time" % fn})
     bad += with_protocol(run, ex, trees, ext)
+    n_dt = 0
+    for r, t in sorted(trees.items()):
+        v3 = ex.FileRefs(r)
+        try:
+            v3.visit(t)
+        except Exception:
+            continue
+        for line, lit in ex.dtype_literals(t, v3.alias):
+            n_dt += 1
+            if not ex.dtype_understood(lit):
+                import numpy
+                try:
+                    numpy.dtype(lit)
+                    why = "?"
+                except Exception as e:      # noqa: BLE001
+                    why = "%s: %s" % (type(e).__name__, e)
+                bad.append({"file": r, "line": line, "expr": "dtype %r" % lit,
+                            "why": "names a numpy type by a string the installed numpy does not understand (numpy.dtype(%r) -> %s)"
+                                   % (lit, why)})
+    run.extra["dtype_string_literals_checked"] = n_dt
     kwv = _fresh_eval(sorted(ext), [], kwcalls=sorted({(tuple(f), k) for _, _, f, k in pending_kw}))
     for rel, line, full, kw in pending_kw:
         why = kwv.get(".".join(full) + "(" + kw + "=)")
